@@ -11,3 +11,4 @@ def run(ck):
     sampling.r4_enum_exhaustive(ck, P)
     filt.r_axis_consistency(ck, P, 'C08-R5')
     sampling.r6_coordinate_siblings(ck, P)
+    filt.r7_signed_totals(ck, P, 'C08-R7')
